@@ -8,7 +8,7 @@
    running the three-round composition of the implementation on each accepted document (both paths) and,
    as correspondence, the model's own composition (Transform.roundtrip) against it. *)
 From Verif Require Import Base.Str Base.Outcome Model.Ast Model.Token Model.Parser Model.Listener Model.Printer
-  Model.Transform Spec.Sem Spec.Expressible Spec.Normalize Proofs.ListenerSem Proofs.ListenerFile Proofs.ParserShape Proofs.RoundTrip Proofs.Lossless.
+  Model.Transform Spec.Sem Spec.Expressible Spec.Normalize Proofs.ListenerSem Proofs.ListenerFile Proofs.ParserShape Proofs.RoundTrip Proofs.Lossless Proofs.ParserTokens Proofs.AcceptedText.
 
 (* 1. what the parser can produce for a relation is always printable: carriable, at most one direct assignment,
       and that one in a position from which it can be written first *)
@@ -67,3 +67,16 @@ Theorem C01_tree_round_trip : forall d refs,
   wf_rdef d = true -> refs_ok refs ->
   exists t, print_top (sem_rdef d) refs = Some (t, count_direct (sem_rdef d)) /\ t = render_rdef (rdef_of refs (sem_rdef d)) /\ wf_rdef (rdef_of refs (sem_rdef d)) = true /\ sem_rdef (rdef_of refs (sem_rdef d)) = sem_rdef d.
 Proof. exact parsed_printed_parsed. Qed.
+
+(* 5. the first clause of the property from the TEXT, no hypothesis left: whenever ParseDSL accepts a document, the
+      returned model renders — with or without source information.  (Type names are never empty and a scalar
+      parameter type is never spelled list/map because of what the lexer model emits and because the parser's
+      tokens are tokens of its input: Proofs/ParserTokens.v.) *)
+Theorem C01_every_accepted_document_renders : forall src d m exts md,
+  dsl_to_model d = DOk m exts md -> exists t, fst (print_model src m) = Ok t.
+Proof. exact accepted_text_prints. Qed.
+
+Theorem C01_accepted_document_is_its_denotation : forall d m exts md,
+  dsl_to_model d = DOk m exts md ->
+  exists f, parse (fst (Lexer.lex (Lexer.prepass d))) = Some f /\ wf_file f /\ distinct_decls f /\ m = sem_file f /\ scalar_params f.
+Proof. exact accepted_text. Qed.
